@@ -3,57 +3,64 @@ import ClaripyProofs.Lemmas.VSA.Extract
 /-! `min` / `max` (unsigned and signed) bound every member; the unsigned minimum is attained. -/
 namespace Claripy.VSA
 
+def fmin (m : Int) (p : Int × Int) : Int := if p.1 < m then p.1 else m
+def fmax (m : Int) (p : Int × Int) : Int := if p.2 > m then p.2 else m
+
+theorem fmin_facts (m : Int) (q : Int × Int) : fmin m q ≤ m ∧ fmin m q ≤ q.1 ∧ (fmin m q = m ∨ fmin m q = q.1) := by
+  unfold fmin; split_ifs <;> omega
+
+theorem fmax_facts (m : Int) (q : Int × Int) : m ≤ fmax m q ∧ q.2 ≤ fmax m q := by
+  unfold fmax; split_ifs <;> omega
+
 theorem foldl_min_spec (rest : List (Int × Int)) : ∀ (m : Int),
-    let r := rest.foldl (fun m p => if p.1 < m then p.1 else m) m
-    r ≤ m ∧ (∀ p, p ∈ rest → r ≤ p.1) ∧ (r = m ∨ ∃ p, p ∈ rest ∧ r = p.1) := by
+    rest.foldl fmin m ≤ m ∧ (∀ p, p ∈ rest → rest.foldl fmin m ≤ p.1) ∧
+      (rest.foldl fmin m = m ∨ ∃ p, p ∈ rest ∧ rest.foldl fmin m = p.1) := by
   induction rest with
-  | nil => intro m; exact ⟨Int.le_refl _, fun p hp => by cases hp, Or.inl rfl⟩
+  | nil => intro m; exact ⟨Int.le_refl _, (fun p hp => nomatch hp), Or.inl rfl⟩
   | cons q qs ih =>
     intro m
     simp only [List.foldl_cons]
-    obtain ⟨h1, h2, h3⟩ := ih (if q.1 < m then q.1 else m)
-    simp only [] at h1 h2 h3
-    refine ⟨?_, ?_, ?_⟩
-    · split_ifs at h1 <;> omega
+    obtain ⟨h1, h2, h3⟩ := ih (fmin m q)
+    obtain ⟨f1, f2, f3⟩ := fmin_facts m q
+    generalize fmin m q = t at h1 h2 h3 f1 f2 f3
+    refine ⟨by omega, ?_, ?_⟩
     · intro p hp
       rcases List.mem_cons.1 hp with he | hin
-      · subst he; split_ifs at h1 <;> omega
+      · subst he; omega
       · exact h2 p hin
     · rcases h3 with h3 | ⟨p, hp, h3⟩
-      · split_ifs at h3 with hq
-        · exact Or.inr ⟨q, List.mem_cons_self, h3⟩
-        · exact Or.inl h3
+      · rcases f3 with f3 | f3
+        · left; omega
+        · right; exact ⟨q, List.mem_cons_self, by omega⟩
       · exact Or.inr ⟨p, List.mem_cons_of_mem _ hp, h3⟩
 
 theorem foldl_max_spec (rest : List (Int × Int)) : ∀ (m : Int),
-    let r := rest.foldl (fun m p => if p.2 > m then p.2 else m) m
-    m ≤ r ∧ (∀ p, p ∈ rest → p.2 ≤ r) := by
+    m ≤ rest.foldl fmax m ∧ (∀ p, p ∈ rest → p.2 ≤ rest.foldl fmax m) := by
   induction rest with
-  | nil => intro m; exact ⟨Int.le_refl _, fun p hp => by cases hp⟩
+  | nil => intro m; exact ⟨Int.le_refl _, (fun p hp => nomatch hp)⟩
   | cons q qs ih =>
     intro m
     simp only [List.foldl_cons]
-    obtain ⟨h1, h2⟩ := ih (if q.2 > m then q.2 else m)
-    simp only [] at h1 h2
-    refine ⟨?_, ?_⟩
-    · split_ifs at h1 <;> omega
-    · intro p hp
-      rcases List.mem_cons.1 hp with he | hin
-      · subst he; split_ifs at h1 <;> omega
-      · exact h2 p hin
+    obtain ⟨h1, h2⟩ := ih (fmax m q)
+    obtain ⟨f1, f2⟩ := fmax_facts m q
+    generalize fmax m q = t at h1 h2 f1 f2
+    refine ⟨by omega, ?_⟩
+    intro p hp
+    rcases List.mem_cons.1 hp with he | hin
+    · subst he; omega
+    · exact h2 p hin
 
 /-- generic: the `min` of a list of enclosing boxes is below every enclosed value -/
 theorem min_of_bounds (bs : List (Int × Int)) (m : Int) (v : Int) (p : Int × Int) (hp : p ∈ bs) (hv : p.1 ≤ v)
     (h : (match bs with
-      | [] => (throw .typeError : R (Option Int))
-      | (l, _) :: rest => pure (some (rest.foldl (fun m p => if p.1 < m then p.1 else m) l))) = .ok (some m)) : m ≤ v := by
+      | [] => (throw Err.typeError : R (Option Int))
+      | (l, _) :: rest => pure (some (rest.foldl (fun (m : Int) (p : Int × Int) => if p.1 < m then p.1 else m) l))) = .ok (some m)) : m ≤ v := by
   cases bs with
   | nil => cases hp
   | cons q rest =>
     simp only [pure, Except.pure] at h
-    have hm : m = rest.foldl (fun m p => if p.1 < m then p.1 else m) q.1 := by cases h; rfl
+    have hm : m = rest.foldl fmin q.1 := by cases h; rfl
     obtain ⟨h1, h2, _⟩ := foldl_min_spec rest q.1
-    simp only [] at h1 h2
     rw [← hm] at h1 h2
     rcases List.mem_cons.1 hp with he | hin
     · subst he; omega
@@ -61,15 +68,14 @@ theorem min_of_bounds (bs : List (Int × Int)) (m : Int) (v : Int) (p : Int × I
 
 theorem max_of_bounds (bs : List (Int × Int)) (m : Int) (v : Int) (p : Int × Int) (hp : p ∈ bs) (hv : v ≤ p.2)
     (h : (match bs with
-      | [] => (throw .typeError : R (Option Int))
-      | (_, u) :: rest => pure (some (rest.foldl (fun m p => if p.2 > m then p.2 else m) u))) = .ok (some m)) : v ≤ m := by
+      | [] => (throw Err.typeError : R (Option Int))
+      | (_, u) :: rest => pure (some (rest.foldl (fun (m : Int) (p : Int × Int) => if p.2 > m then p.2 else m) u))) = .ok (some m)) : v ≤ m := by
   cases bs with
   | nil => cases hp
   | cons q rest =>
     simp only [pure, Except.pure] at h
-    have hm : m = rest.foldl (fun m p => if p.2 > m then p.2 else m) q.2 := by cases h; rfl
+    have hm : m = rest.foldl fmax q.2 := by cases h; rfl
     obtain ⟨h1, h2⟩ := foldl_max_spec rest q.2
-    simp only [] at h1 h2
     rw [← hm] at h1 h2
     rcases List.mem_cons.1 hp with he | hin
     · subst he; omega
@@ -125,10 +131,9 @@ theorem min_attained (s : SI) (m : Int) (hs : s.WF) (hnb : s.bottom = false) (h 
   | nil => simp only [List.map_nil] at h; cases h
   | cons q rest =>
     simp only [List.map_cons, pure, Except.pure] at h
-    have hm : m = (rest.map fun p => ((p.lb : Int), (p.ub : Int))).foldl (fun m p => if p.1 < m then p.1 else m) (q.lb : Int) := by
+    have hm : m = (rest.map fun p => ((p.lb : Int), (p.ub : Int))).foldl fmin (q.lb : Int) := by
       cases h; rfl
     obtain ⟨_, _, h3⟩ := foldl_min_spec (rest.map fun p => ((p.lb : Int), (p.ub : Int))) (q.lb : Int)
-    simp only [] at h3
     rw [← hm] at h3
     rcases h3 with h3 | ⟨p, hp, h3⟩
     · obtain ⟨hqw, hqb, _, _⟩ := hprop q List.mem_cons_self
